@@ -3,6 +3,7 @@ package props
 import (
 	"bytes"
 	"fmt"
+	"net"
 	"reflect"
 	"testing"
 
@@ -33,6 +34,20 @@ var c02 = newChk("C02", "roundtrip",
 		lib := gen.ToLibMsg(t)
 		enc := lib.ToBytes()
 		want := refv6.EncodeMsg(t)
+		// history: another message (a relay chain around this one with vendor, IA and name options of its own) is
+		// encoded, decoded and re-encoded before the bytes are looked at — what ToBytes returned stays as returned
+		if o, err := dhcpv6.EncapsulateRelay(lib, dhcpv6.MessageTypeRelayForward, net.ParseIP("2001:db8::d"), net.ParseIP("fe80::d")); err == nil {
+			o.AddOption(dhcpv6.OptInterfaceID(bytes.Repeat([]byte{0xD0}, 40)))
+			o.AddOption(&dhcpv6.OptVendorOpts{EnterpriseNumber: 40000, VendorOpts: dhcpv6.Options{&dhcpv6.OptionGeneric{OptionCode: 1, OptionData: bytes.Repeat([]byte{0xD1}, 300)}}})
+			o.AddOption(dhcpv6.OptDomainSearchList(&rfc1035label.Labels{Labels: []string{"decoy.example.org", "other.decoy.example.org"}}))
+			ob := o.ToBytes()
+			if od, err := dhcpv6.FromBytes(ob); err == nil {
+				_ = od.ToBytes()
+			}
+		}
+		if again := lib.ToBytes(); !bytes.Equal(again, enc) {
+			return obs.Failf("C02/encoding-changed-by-later-calls", "the same bytes on a later ToBytes, and the earlier result untouched", "differs at byte %d", firstDiff(again, enc))
+		}
 		if !bytes.Equal(enc, want) {
 			// locate the first differing option for the signature
 			sig := "C02/encode"
